@@ -277,7 +277,15 @@ def bfs(universe, pool, ranks, prop, max_states=400000, budget_s=None):
             size = max(1, min(64, len(frontier) // (nproc * 4) or 1))
             chunks = [frontier[i:i + size] for i in range(0, len(frontier), size)]
             nxt = []
-            for c, succ, vs in pool_.imap_unordered(_expand, chunks):
+            it = pool_.imap_unordered(_expand, chunks)
+            while True:
+                try:
+                    c, succ, vs = it.next(timeout=common.STALL_S)
+                except StopIteration:
+                    break
+                except multiprocessing.TimeoutError:
+                    pool_.terminate()
+                    raise common.HarnessError('BFS worker lost (no chunk finished in time)')
                 ctr.update(c)
                 for v in vs:
                     viols.append(v)
